@@ -199,6 +199,50 @@ func c17ProcessPart(run *report.Run, tier string) {
 				run.Nontrivial("cli-pattern|" + pat + "|" + cwd)
 			}
 		}
+		// (a2) several patterns on one command line select the union of what each selects alone
+		// (recursive patterns with different name parts on disjoint sub-trees, nested ones, mixes)
+		var recs []string
+		for _, p := range pats {
+			if strings.HasPrefix(p, "//") && strings.Contains(p, "...") {
+				recs = append(recs, p)
+			}
+		}
+		sort.Strings(recs)
+		for k := 0; k < tierN(tier, 30, 120); k++ {
+			var combo []string
+			for len(combo) < 2+r.Intn(3) {
+				if r.Chance(3, 4) {
+					combo = append(combo, recs[r.Intn(len(recs))])
+				} else if p := pats[r.Intn(len(pats))]; strings.HasPrefix(p, "//") {
+					combo = append(combo, p)
+				}
+			}
+			res := m.Run(append([]string{"list"}, combo...), grog.RunOpts{Build: "q", Timeout: 30 * time.Second})
+			run.Eval(1)
+			run.Count("cli_multi_pattern_queries", 1)
+			var want []string
+			for _, nd := range nodes {
+				for _, p := range combo {
+					if e1.MatchPattern(p, nd.pkg, nd.name) {
+						want = append(want, lbl(nd))
+						break
+					}
+				}
+			}
+			sort.Strings(want)
+			got := lines(res.Stdout)
+			replay := map[string]any{"patterns": combo, "want": want, "got": got, "output": tailS(res.Stdout+res.Stderr, 400)}
+			switch {
+			case res.Crashed() != "":
+				run.Violation("cli-crash cmd=list", "grog list crashed on patterns "+strings.Join(combo, " ")+": "+res.Crashed(), replay)
+			case res.Exit != 0 && len(want) > 0:
+				run.Violation("cli-pattern-rejected", fmt.Sprintf("grog list %v exited %d although every pattern is in a documented form: %s", combo, res.Exit, tailS(res.Stdout+res.Stderr, 200)), replay)
+			case res.Exit == 0 && strings.Join(want, " ") != strings.Join(got, " "):
+				run.Violation("cli-multi-pattern-is-not-the-union", fmt.Sprintf("grog list %v printed %d labels, the union of what the patterns match one by one has %d", combo, len(got), len(want)), replay)
+			case len(want) > 0:
+				run.Nontrivial("cli-multi-pattern|" + strings.Join(combo, " "))
+			}
+		}
 		// (b) labels written in BUILD files in every documented form resolve to the intended node:
 		// `grog deps` of the dependant (given once canonically, once in shorthand / relative form)
 		byFrom := map[string][]edge{}
